@@ -21,7 +21,9 @@ RULE = (
     "Break/Continue/Assert/Return/Approve/Reject, MaybeValue forms), both modes, 3 generated transaction contexts each, "
     "compiled at every version 2..10 that accepts them; oracle = independent tree-walking evaluator of the documented "
     "source semantics vs reference AVM interpreter on the emitted text (verdict, value, ordered logs/state writes/inner "
-    "txns, explicitly numbered slots). non-trivial = recipe has >=1 of If/Cond/While/For/Assert/MaybeValue and some "
+    "txns, explicitly numbered slots); an emitted text that cannot be assembled (bad immediate, undefined label, control "
+    "running off the end) is a violation as well. Plus an enumerated grid of constant-index Substring/Extract/Suffix slices "
+    "of a 300-byte value around the uint8 boundary at versions 2..10, and WideRatio with compound factors. non-trivial = recipe has >=1 of If/Cond/While/For/Assert/MaybeValue and some "
     "context executes >=2 basic blocks without failing; distinct by recipe hash."
 )
 ASSUMPTIONS = [
@@ -129,7 +131,38 @@ def case_strategy(draw, budget, thorough=False):
     return {"recipe": recipe, "ctxs": [c.to_json() for c in ctxs], "configs": [{"version": v} for v in vs]}
 
 
+def slice_grid():
+    """constant-index slices over a 300-byte value: every (start, end/length) pair around the uint8 boundary, where the
+    compiler chooses between immediate and stack forms per version"""
+    pts = [0, 1, 2, 127, 128, 254, 255, 256, 257, 299, 300, 301]
+    note = bytes(range(256)) + bytes(range(44))
+    ctx = Ctx("app", [{"Note": note, "ApplicationID": 1001, "TypeEnum": 6}], 0).to_json()
+    out = []
+    for s_ in pts:
+        for e_ in pts:
+            nodes = [["tern", "Extract", ["txn", "note"], ["int", s_], ["int", e_]]]
+            if e_ >= s_:
+                nodes.append(["tern", "Substring", ["txn", "note"], ["int", s_], ["int", e_]])
+            if e_ == 0:
+                nodes.append(["suffix", ["txn", "note"], ["int", s_]])
+            for nd in nodes:
+                lvl = 5 if nd[0] == "suffix" or nd[1] == "Extract" else 2
+                # the value of the program is 1 + the length of the slice (a wrong slice changes it or makes the run fail)
+                main = ["seq", [["nary", "Add", [["int", 1], ["un", "Len", nd]]]]]
+                out.append({"recipe": {"mode": "app", "level": lvl, "vars": {}, "routines": [], "main": main}, "ctxs": [ctx],
+                            "configs": [{"version": v} for v in (2, 3, 4, 5, 6, 8, 10) if v >= lvl]})
+    return out
+
+
 def shard(tier, seedv, k, n, col: Collector):
+    for idx, case in enumerate(slice_grid()):
+        if idx % n != k:
+            continue
+        col.case()
+        col.cls("slice-grid")
+        for b, d in run_case(case, col):
+            col.fail(b, d, case)
+
     def body(case):
         col.case()
         res = run_case(case, col)
